@@ -1333,7 +1333,10 @@ def crc_gen():
 
 
 def crc_tie_modules():
-    return [m for f, m in CRC_TIE.items() if CRC_STATUS.get(f) == "translated"]
+    mods = [m for f, m in CRC_TIE.items() if CRC_STATUS.get(f) == "translated"]
+    if all(CRC_STATUS.get(f) == "translated" for f in ("crc16_octet", "ufw_crc16_arc", "ufw_crc16_arc_u16")):
+        mods.append("Ufw.Tie.CrcLoops.EndToEnd")      # the property theorems carried over to the translated C
+    return mods
 
 
 # ---------------------------------------------------------------------------------------------------------------
@@ -1377,8 +1380,9 @@ REGP_SRC = "src/register-protocol.c"
 REGP_TIE = {
     "payload_plausible": "Ufw.Tie.RegpFns.PayloadPlausible", "req2resp": "Ufw.Tie.RegpFns.Req2resp", "msem_size": "Ufw.Tie.RegpFns.MsemSize",
     "memtype_valid": "Ufw.Tie.RegpFns.MemtypeValid", "raw_with_hdcrc": "Ufw.Tie.RegpFns.RawWithHdcrc", "raw_with_plcrc": "Ufw.Tie.RegpFns.RawWithPlcrc",
+    "make_motv": "Ufw.Tie.RegpFns.MakeMotv",
 }
-REGP_WANT = list(REGP_TIE) + ["make_motv", "regp_is_16bitsem", "regp_has_hdcrc", "regp_has_plcrc", "address_min", "address_max"]
+REGP_WANT = list(REGP_TIE) + ["regp_is_16bitsem", "regp_has_hdcrc", "regp_has_plcrc", "address_min", "address_max"]
 REGP_STATUS = {}
 
 
